@@ -104,7 +104,7 @@ def handleConvert (op : String) (j : Json) : Option (Except String Json) :=
     let conv ← convOfJson (← j.getObjVal? "conv")
     let dflt ← convOfJson (← j.getObjVal? "dflt")
     let w : World := [t]
-    let (w', res) := convertUnits w 0 (by simp [w]) to conv dflt
+    let (w', res) := convertUnits positionalAssign w 0 (by simp [w]) to conv dflt
     let orig := match w'[0]? with
       | some o => cvTblToJson o
       | none => Json.null
